@@ -347,8 +347,23 @@ def insert(
 
     _add_missing_fallthrough(cache, cfg, end_block)
 
-    # This needs to happen after the replaced code is removed so that a call
-    # that is being replaced does not count as a caller.
+    # Stitch in the new blocks to the CFG
+    if added_fallthrough:
+        assert isinstance(text_section.blocks[0], gtirb.CodeBlock)
+        assert isinstance(block, gtirb.CodeBlock)
+        update_fallthrough_target(cache, cfg, block, text_section.blocks[0])
+
+    if isinstance(end_block, gtirb.CodeBlock) and isinstance(
+        text_section.blocks[-1], gtirb.CodeBlock
+    ):
+        update_fallthrough_target(
+            cache, cfg, text_section.blocks[-1], end_block
+        )
+
+    # This needs to happen after the replaced code is removed, so that a call
+    # that is being replaced does not count as a caller, and after the patch
+    # is stitched in, so that a call directly in front of the patch returns
+    # into the patch.
     if isinstance(block, gtirb.CodeBlock):
         _update_patch_return_edges_to_match(
             cache, block, code.cfg, code.proxies, unknown_return_targets
@@ -362,19 +377,6 @@ def insert(
         module,
         code.cfg,
     )
-
-    # Stitch in the new blocks to the CFG
-    if added_fallthrough:
-        assert isinstance(text_section.blocks[0], gtirb.CodeBlock)
-        assert isinstance(block, gtirb.CodeBlock)
-        update_fallthrough_target(cache, cfg, block, text_section.blocks[0])
-
-    if isinstance(end_block, gtirb.CodeBlock) and isinstance(
-        text_section.blocks[-1], gtirb.CodeBlock
-    ):
-        update_fallthrough_target(
-            cache, cfg, text_section.blocks[-1], end_block
-        )
 
     # Add the patch contents and then we can add everything else from the
     # patch.
